@@ -617,3 +617,21 @@ def run(ck, prog):
 
 
 EXPLANATION += (' Equality is also required to walk whole vectors (an index loop over F runs to len(F), not to another field) and, for non-strict tolerance tests, to use a bound that is never negative.')
+
+
+# ------------------------------------------------------------------ 'a second fit on the same data is equal' for the deterministic tree estimators
+_run_pre_refit = run
+
+
+def run(ck, prog):
+    _run_pre_refit(ck, prog)
+    # stand-alone trees are deterministic estimators: fit passes mtry = number of attributes and the only draw (the feature
+    # shuffle) sits under mtry < n_attr; nothing else reachable from fit is nondeterministic (C05's rule, evaluated here too)
+    from props import C05
+    C05.determinism(ck, prog)
+
+
+EXPLANATION += (" Refit equality of the stand-alone trees: the feature shuffle in find_best_cutoff is the only draw reachable from "
+                "DecisionTree{Classifier,Regressor}::fit and it is dominated by mtry < number of attributes, which fit makes false "
+                "(E2b-guarded, C05's rule).")
+TECHNIQUE += "; RNG-draw reachability and dominance for the deterministic tree estimators"
